@@ -340,6 +340,12 @@ impl Terminal {
         }
     }
 
+    pub fn gc_alternate(&mut self) {
+        if self.active_buffer_type == BufferType::Alternate {
+            drop(self.buffer.gc());
+        }
+    }
+
     pub fn changes(&mut self) -> Vec<usize> {
         let changes = self.dirty_lines.to_vec();
         self.dirty_lines.clear();
